@@ -6,6 +6,9 @@ Rules
   L2  no concurrent entry point returns a reference/pointer into storage that a concurrent entry point writes
   L3  single critical section: one entry does not touch the same guarded storage under two separate acquisitions of
       its mutex when another thread can observe that storage in between
+  L5  publication order (lock-free members): when a reader tests an atomic flag F and only then reads another individually-synchronised
+      member D (`F.load() && g(D.load())`), every writer that stores both must store D BEFORE it raises F - otherwise a reader scheduled
+      between the two stores sees the flag with the previous D (no data race, but a state no sequential ordering of the calls produces)
   L4  no self-deadlock: a std::mutex is not re-acquired while held along one call chain
   W1  SharedVariable / SharedOptionalVariable cannot be copied around their lock (compile-time witness)
 Decides the lock discipline (a necessary condition of the statement); linearizability of histories is NOT decided."""
@@ -146,8 +149,49 @@ def _encapsulated(fx, rec, seen=None):
     return False
 
 
+def check_publication_order(fx, R, classes):
+    from ..tree import walk, pp, strip_casts
+    n = 0
+    for cq in classes:
+        rec = fx.records[cq]
+        sync = {f_['name'] for f_ in rec['fields'] if f_['t']['s'].replace('const ', '').startswith(('std::atomic<', 'romea::core::SharedVariable<', 'SharedVariable<'))}
+        flags = {f_['name'] for f_ in rec['fields'] if f_['t']['s'].replace('const ', '').startswith('std::atomic<bool')}
+        if not flags or len(sync) < 2:
+            continue
+        methods = [g for m_ in rec['methods'] for g in fx.fn(m_['q']) if g.get('body') is not None and not g.get('ctor')]
+        # readers: F.load() && ... D.load() ...
+        guards = set()
+        for g in methods:
+            for x in walk(g['body']):
+                if x.get('k') == 'Bin' and x.get('op') == '&&':
+                    lf = [y for y in walk(x['l']) if y.get('k') == 'Member' and y.get('name') in flags]
+                    rd_ = [y for y in walk(x['r']) if y.get('k') == 'Member' and y.get('name') in sync and y.get('name') not in flags]
+                    for a in lf:
+                        for b in rd_:
+                            guards.add((a['name'], b['name'], g['name']))
+        for (F, D, reader) in sorted(guards):
+            for g in methods:
+                if g['name'] == reader:
+                    continue
+                stores = [(y.get('m'), strip_casts(y['obj']).get('name'), y.get('loc')) for y in walk(g['body'])
+                          if y.get('k') in ('MCall', 'Op') and (y.get('m') in ('store', 'operator=', 'exchange') or y.get('op') == '=') and
+                          strip_casts(y.get('obj') or (y.get('args') or [{}])[0]).get('k') == 'Member' and strip_casts(y.get('obj') or y['args'][0]).get('name') in (F, D)]
+                names_ = [s_[1] for s_ in stores]
+                if F in names_ and D in names_:
+                    n += 1
+                    inst = '%s::%s:%s-before-%s' % (erase_scalars(cq), g['name'], D, F)
+                    if names_.index(F) < len(names_) - 1 - names_[::-1].index(D):
+                        R.violated('L5', '%s::%s:publishes-%s-before-%s' % (erase_scalars(cq), g['name'], F, D), '%s() raises the flag %s before it stores %s, while %s() tests the flag and only then reads %s: '
+                                   'a call of %s() scheduled between the two stores sees the flag set together with the PREVIOUS %s (each access is synchronised on its own, so there is no data race, '
+                                   'but no sequential ordering of the calls produces that state)' % (g['name'], F, D, reader, D, reader, D), fx.rel(stores[names_.index(F)][2]), 'E-LOCK')
+                    else:
+                        R.holds('L5', inst, '%s is stored before the flag %s that guards it in %s()' % (D, F, reader), fx.rel(g['loc']), 'E-LOCK')
+    return n
+
+
 def run(fx, R, tier):
     classes = sorted(q for q in fx.records if any(re.fullmatch(p, q) for p in CLASSES))
+    check_publication_order(fx, R, classes)
     R.floor('L1', 1)
     if len(classes) < FLOOR_CLASSES:
         R.undecided('L1', 'class-floor', 'only %d shared classes found (floor %d): %s' % (len(classes), FLOOR_CLASSES, classes))
